@@ -341,4 +341,30 @@ theorem typedFields_ofList (R : Params) (T : KindTable) (kvs : List (String × R
     rw [← hv]
     exact h kv hmem f hf hkey.symm hpk
 
+/-! `Flags`: every member is an explicit value (`False` is a value, not "not set"), so no `Flags` object is written as the
+empty text (`drop := .keepAll` in the generated class table, regenerated by this property's run as well): the
+`Codec.encode spec x ≠ none` condition of `WTVal` holds for every `Flags`, and the all-`False` object is inside the domain
+of the round-trip theorems (`props_/dict_/graph_roundtrip_typed_partial`). -/
+theorem flags_never_absent (x : Codec.Fields) : Codec.encode Gen.Fields.flags x ≠ none := by
+  intro h
+  exact ((C03.encode_none_iff _ _).1 h).2 rfl
+
+theorem flags_value_typed (R : Params) (e : Enc) (f : FromRow) (x : Codec.Fields)
+    (he : e = Enc.toJson) (hd : f.dec = Dec.fromJson) (ha : f.arg = "Flags")
+    (hx : Codec.WellTyped Gen.Fields.flags (validFor R "Flags") x) : WTVal R e f (.jf "Flags" x) := by
+  refine ⟨he, hd, ha, by decide, Gen.Fields.flags, by simp [Gen.Fields.all], by rfl, hx, flags_never_absent x⟩
+
+theorem flags_all_false_wellTyped (R : Params) :
+    Codec.WellTyped Gen.Fields.flags (validFor R "Flags") (Codec.defaults Gen.Fields.flags) := by
+  refine ⟨?_, fun k hk => Codec.dfltOf_not_mem _ k hk⟩
+  intro f hf
+  right
+  have hv : validFor R "Flags" = fun _ _ => true := by simp [validFor]
+  rw [hv]
+  simp [Gen.Fields.flags] at hf
+  rcases hf with rfl | rfl | rfl | rfl <;> decide
+
+theorem flags_all_false_typed (R : Params) (f : FromRow) (hd : f.dec = Dec.fromJson) (ha : f.arg = "Flags") :
+    WTVal R Enc.toJson f (.jf "Flags" (Codec.defaults Gen.Fields.flags)) :=
+  flags_value_typed R _ f _ rfl hd ha (flags_all_false_wellTyped R)
 end FimVerif.C02
